@@ -63,6 +63,9 @@ def _task(kind, prop, tier, arg=None):
         return verify_Z(prop, tier)
     if kind == 'L':
         return verify_L(prop, tier)
+    if kind == 'H':
+        from .. import zshape
+        return zshape.verify(prop, only=arg)
     if kind == 'D':
         from .. import zfold
         return zfold.verify(prop, only=arg)
@@ -92,8 +95,9 @@ def deductive_all(prop, tier='quick'):
     tasks = [('T', prop, tier, None), ('Z', prop, tier, None), ('F', prop, tier, None), ('L', prop, tier, None)]
     tasks += [('S', prop, tier, a) for a in SWEEPS.get(prop, [])]
     tasks += [('Q', prop, tier, a) for a in QR.get(prop, [])]
-    from .. import zfold
+    from .. import zfold, zshape
     tasks += [('D', prop, tier, c['fn']) for c in zfold.contracts() if prop in c['props']]
+    tasks += [('H', prop, tier, name) for name, (mk, props) in zshape.CONTRACTS.items() if prop in props]
     if len(tasks) <= 4 and prop not in ('C12', 'C13'):
         out = []
         for t in tasks:
